@@ -16,3 +16,14 @@ package provider
 //@ requires am.keeper != nil
 //@ ensures [heights-before-updates] $EndBlockCIS.called && $EndBlockVSU.called && result0 == $EndBlockVSU.ret0 && result1 == $EndBlockVSU.ret1
 //@ precall EndBlockVSU [cis-first] $EndBlockCIS.called
+
+// ---------------------------------------------------------------- C16: crediting received rewards
+
+//@ func IBCMiddleware.OnRecvPacket
+//@ requires im.keeper != nil
+//@ precall SetConsumerRewardsAllocationByDenom [transfer-succeeded] ack.Success()
+//@ precall SetConsumerRewardsAllocationByDenom [to-rewards-pool] receiver.String() == im.keeper.GetConsumerRewardsPoolAddressStr(ctx)
+//@ precall SetConsumerRewardsAllocationByDenom [known-consumer] im.keeper.GetConsumerChainId(ctx, $SetConsumerRewardsAllocationByDenom.consumerId).1 == nil
+//@ precall SetConsumerRewardsAllocationByDenom [adds-to-the-senders-record] $GetConsumerRewardsAllocationByDenom.called && $SetConsumerRewardsAllocationByDenom.consumerId == $GetConsumerRewardsAllocationByDenom.consumerId && $SetConsumerRewardsAllocationByDenom.denom == $GetConsumerRewardsAllocationByDenom.denom && $GetConsumerRewardsAllocationByDenom.ret1 == nil
+//@ precall SetConsumerRewardsAllocationByDenom [provider-denom] (stretch) $SetConsumerRewardsAllocationByDenom.denom == GetProviderDenom(data.Denom, packet)
+//@ ensures [returns-transfer-ack] result == ack
